@@ -1,5 +1,7 @@
 """C19 -- Public functions are pure, deterministic and keep the documented schema."""
 import ast
+import os
+import json
 import copy
 import inspect
 import textwrap
@@ -103,6 +105,10 @@ def frame_table(py):
             ss = by_func.get(f, [])
             # a private helper's writes to its own parameters / to self are judged where it is called (frame.analyze_module)
             bad = [s for s in ss if not s.ok() and not s.deferred]
+            # state that outlives the call (module / class level objects, `global` rebinding): whether results still depend on
+            # the arguments only is not decidable by this analysis and not forbidden by any property -> bounded dynamic contract
+            state = [s for s in bad if s.origin == frame.SHARED]
+            bad = [s for s in bad if s.origin != frame.SHARED]
             outs = OUT_PARAMS.get((m, f))
             if outs:
                 bad = [s for s in bad if not (s.origin == frame.ALIAS and s.target in outs)]
@@ -116,9 +122,9 @@ def frame_table(py):
                     # only on the arguments is a matter of its invalidation logic -- not decidable by this analysis, and not
                     # forbidden by the property; the dynamic history obligations decide it.  Reported as undecided.
                     soft = [s for s in ss if s.origin == frame.OWN and s.kind.startswith(("attribute-store", "item-store", "augmented", "method:"))]
-                table[(m, f)] = (bad, ss, soft)
+                table[(m, f)] = (bad, ss, soft + state)
                 continue
-            table[(m, f)] = (bad, ss, [])
+            table[(m, f)] = (bad, ss, state)
     _FRAME_TABLE[key] = table
     return table
 
@@ -126,9 +132,11 @@ def frame_table(py):
 def emit_frame(ctx, py, prefix, m, f, dt=0.0):
     bad, ss, soft = frame_table(py)[(m, f)]
     if not bad and soft:
-        ctx.ob("%s.frame.%s.%s" % (prefix, m, f), "f", None, "ast-freshness", dt,
-               "a method outside the documented state writers stores on the object (a cache?): purity not established statically; "
-               + "; ".join("line %d `%s`" % (s.lineno, s.text) for s in soft[:3]))
+        n_eval, fails, n_calls = module_purity(py, m)
+        sites = "; ".join("line %d `%s` (%s)" % (s.lineno, s.text[:70], s.origin) for s in soft[:3])
+        ctx.standin("%s.frame.%s.%s" % (prefix, m, f), "state that outlives a call (%s): frame not established statically; bounded dynamic purity contract of module %s: "
+                    "%d call scenarios (arguments untouched, equal inputs equal results, arguments overwritten in place and re-used, every one-column / one-scalar variant against the same call in a pristine "
+                    "process, second pass in reverse order)" % (sites, m, n_calls), n_eval, fails)
         return
     ctx.ob("%s.frame.%s.%s" % (prefix, m, f), "f", not bad, "ast-freshness", dt,
            "%d in-place mutation site(s), every target fresh or the object's documented own state" % len(ss) if not bad
@@ -159,12 +167,156 @@ def _frames(ctx, py):
     ctx.notes.append(dict(mutation_sites_analysed=sum(len(v_[1]) for v_ in table.values())))
 
 
+_PURITY = {}
+
+
+def _leaves(x, path=()):
+    """(path, object) of every float ndarray / DataFrame / Series inside nested tuples / lists / dicts"""
+    if isinstance(x, np.ndarray) and x.dtype.kind == "f" and x.size:
+        yield path, x
+    elif isinstance(x, (pd.DataFrame, pd.Series)) and len(x):
+        yield path, x
+    elif isinstance(x, (list, tuple)):
+        for i, v in enumerate(x):
+            yield from _leaves(v, path + (i,))
+    elif isinstance(x, dict):
+        for k, v in x.items():
+            yield from _leaves(v, path + (k,))
+
+
+def _scale_column(leaf, c, k=1.0 + 2.0 ** -7):
+    if isinstance(leaf, np.ndarray):
+        if leaf.ndim == 0:
+            return False
+        idx = (Ellipsis, c) if leaf.ndim > 1 else (c,)
+        if c >= leaf.shape[-1]:
+            return False
+        leaf[idx] = leaf[idx] * k
+        return True
+    if isinstance(leaf, pd.DataFrame):
+        cols = [col for col in leaf.columns if leaf[col].dtype.kind == "f"]
+        if c >= len(cols):
+            return False
+        leaf.loc[:, cols[c]] = leaf[cols[c]].values * k
+        return True
+    if isinstance(leaf, pd.Series) and leaf.dtype.kind == "f":
+        if c >= len(leaf):
+            return False
+        leaf.iloc[c] = leaf.iloc[c] * k
+        return True
+    return False
+
+
+def variant_ids(make):
+    """deterministic list of input variants of one scenario: the scenario's own arguments, every float column of every array /
+    table argument scaled by 1 + 2^-7 (one at a time, at most 4 columns each), every float scalar argument scaled"""
+    f, a, k = make()
+    ids = ["base"]
+    for path, leaf in _leaves((a, k)):
+        ncol = leaf.shape[-1] if isinstance(leaf, np.ndarray) and leaf.ndim else (len([c for c in leaf.columns if leaf[c].dtype.kind == "f"]) if isinstance(leaf, pd.DataFrame) else (len(leaf) if hasattr(leaf, "__len__") else 0))
+        for c in range(min(4, ncol)):
+            ids.append("col:%s:%d" % (".".join(map(str, path)), c))
+    for i, v in enumerate(a):
+        if isinstance(v, (float, np.floating)) and not isinstance(v, bool):
+            ids.append("scalar:%d" % i)
+    for kk, v in k.items():
+        if isinstance(v, (float, np.floating)) and not isinstance(v, bool):
+            ids.append("kw:%s" % kk)
+    return ids
+
+
+def run_variant(make, vid):
+    f, a, k = make()
+    a = list(a)
+    if vid.startswith("col:"):
+        _, path, c = vid.split(":")
+        tgt = (a, k)
+        for step in path.split("."):
+            tgt = tgt[int(step) if step.lstrip("-").isdigit() else step]
+        _scale_column(tgt, int(c))
+    elif vid.startswith("scalar:"):
+        i = int(vid.split(":")[1])
+        a[i] = type(a[i])(a[i] * (1.0 + 2.0 ** -7))
+    elif vid.startswith("kw:"):
+        kk = vid.split(":", 1)[1]
+        k = dict(k)
+        k[kk] = type(k[kk])(k[kk] * (1.0 + 2.0 ** -7))
+    try:
+        return ("ok", _snap(f(*a, **k)))
+    except Exception as exc:
+        return ("raised", type(exc).__name__)
+
+
+def module_purity(py, module):
+    """Bounded dynamic purity contract of one module (used when the static analysis finds state that outlives a call -- a cache,
+    a memo, a preallocated buffer -- and therefore cannot establish the frame).  Every call scenario of the module: (i)
+    arguments untouched, equal inputs give equal results, results not aliased, (ii) argument objects overwritten in place
+    and passed again, (iii) every (scenario, one-column / one-scalar variant) evaluated here, one after another in this
+    well-used process, must equal the result of the same call in a PRISTINE process state (pvx.isolated: a fresh
+    interpreter, one forked child per call), (iv) all scenarios again in reverse order."""
+    import subprocess
+    import sys as _sys
+    from pvx.isolated import digest
+    if (id(py), module) in _PURITY:
+        return _PURITY[(id(py), module)]
+    calls = [(n_, mk) for n_, mk in _calls(py) if n_.startswith(module + ".")]
+    fails, n_eval = [], 0
+    first = {}
+    for name, make in calls:
+        n_eval += 2
+        r = _check_call(name, make) or _check_inplace(name, make)
+        if r:
+            fails.append(r)
+            continue
+        try:
+            f, a, k = make()
+            first[name] = _snap(f(*a, **k))
+        except Exception:
+            pass
+    # (iii) against pristine process states
+    ref = None
+    try:
+        env = dict(os.environ)
+        out = subprocess.run([_sys.executable, "-W", "ignore", "-m", "pvx.isolated", module], capture_output=True, text=True, timeout=900,
+                             cwd=os.path.dirname(os.path.dirname(os.path.abspath(__file__))), env=env)
+        line = next((ln for ln in out.stdout.splitlines() if ln.startswith("ISOLATED-JSON ")), None)
+        ref = json.loads(line[len("ISOLATED-JSON "):]) if line else None
+    except Exception:
+        ref = None
+    if ref is None:
+        fails.append(dict(call=module, what="the pristine-state reference process could not be run (purity undecided)"))
+    else:
+        for rounds in range(2):            # twice: the second round runs with the state the first one left behind
+            for name, make in calls:
+                for vid in variant_ids(make):
+                    key = "%s|%s" % (name, vid)
+                    if key not in ref:
+                        continue
+                    n_eval += 1
+                    got = digest(run_variant(make, vid))
+                    if got != ref[key]:
+                        fails.append(dict(call=name, variant=vid, what="the result of this call in a used process differs from the result of the same call in a pristine "
+                                                                         "process (it depends on earlier calls, not only on its arguments)"))
+                        break
+    for name, make in reversed(calls):
+        if name in first:
+            n_eval += 1
+            try:
+                f, a, k = make()
+                if _snap(f(*a, **k)) != first[name]:
+                    fails.append(dict(call=name, what="result depends on the calls made before it (different result in a later pass)"))
+            except Exception as exc:
+                fails.append(dict(call=name, what="raised %r in the second pass" % (exc,)))
+    _PURITY[(id(py), module)] = (n_eval, fails, len(calls))
+    return _PURITY[(id(py), module)]
+
+
 def _native_frame(py, module, func):
     """replay: run the run-time frame contract for the calls that exercise this function"""
     fails = []
     for name, call in _calls(py):
         if func.split(".")[-1] in name or func.split(".")[0] in name:
-            r = _check_call(name, call)
+            r = _check_call(name, call) or _check_inplace(name, call)
             if r:
                 fails.append(r)
     return dict(reproduced=bool(fails), failures=fails[:3])
@@ -455,6 +607,61 @@ def _check_call(name, make):
     return None
 
 
+def _scale_in_place(x, k=1.0 + 2.0 ** -7):
+    """overwrite the CONTENT of float arrays / tables in place (same objects, new values); returns True if anything changed"""
+    changed = False
+    if isinstance(x, np.ndarray):
+        if x.dtype.kind == "f" and x.flags.writeable and x.size:
+            x *= k
+            changed = True
+    elif isinstance(x, pd.DataFrame):
+        num = [c for c in x.columns if x[c].dtype.kind == "f"]
+        if num and len(x):
+            x.loc[:, num] = x[num].values * k
+            changed = True
+    elif isinstance(x, pd.Series):
+        if x.dtype.kind == "f" and len(x):
+            x.iloc[:] = x.values * k
+            changed = True
+    elif isinstance(x, (list, tuple)):
+        for v in x:
+            changed = _scale_in_place(v, k) or changed
+    elif isinstance(x, dict):
+        for v in x.values():
+            changed = _scale_in_place(v, k) or changed
+    return changed
+
+
+def _check_inplace(name, make):
+    """the caller REUSES its argument objects: call, overwrite the arguments' content in place, call again with the same
+    objects; the second result must be what fresh copies of the new content give (no reference to an argument is retained,
+    no result is keyed on the identity of an argument)"""
+    import copy
+    try:
+        f, args, kw = make()
+
+        def run(a, k_):
+            try:
+                return ("ok", _snap(f(*a, **k_)))
+            except Exception as exc:
+                return ("raised", type(exc).__name__)
+        # reference first, from separate objects holding the new content; then prime with the caller's objects, overwrite
+        # their content in place and call again with the very same objects
+        scaled_args, scaled_kw = copy.deepcopy(args), copy.deepcopy(kw)
+        if not (_scale_in_place(scaled_args) | _scale_in_place(scaled_kw)):
+            return None
+        want = run(scaled_args, scaled_kw)
+        run(args, kw)
+        _scale_in_place(args)
+        _scale_in_place(kw)
+        again = run(args, kw)
+        if again != want:
+            return dict(call=name, what="after the caller overwrote its arrays in place, a second call with the SAME objects differs from a call with fresh copies of the new content (a reference to an argument, or its identity, is kept between calls)")
+    except Exception as exc:
+        return dict(call=name, what="in-place reuse scenario raised %r" % (exc,))
+    return None
+
+
 def _forms(py):
     """scalar / stacked / list / table forms give the same values"""
     E, T, U = py.earth, py.transform, py.util
@@ -519,6 +726,9 @@ def _standin(ctx, py):
         else:
             f, a, k = make()
             first[name] = _snap(f(*a, **k))
+            r = _check_inplace(name, make)
+            if r:
+                fails.append(r)
     # independence of call order: run everything again in reverse order and compare with the first pass
     for name, make in reversed(calls):
         if name in first:
@@ -528,8 +738,8 @@ def _standin(ctx, py):
                     fails.append(dict(call=name, what="result depends on the calls made before it (different result in the reversed pass)"))
             except Exception as exc:
                 fails.append(dict(call=name, what="raised %r in the reversed pass" % (exc,)))
-    ctx.standin("C19.rt.frame_repeat_order", "%d public call scenarios over all ten modules (ndarray / DataFrame / Series arguments, writable float arrays, both altitude modes, seeded RNG): deep bitwise snapshot of every argument before / after, call twice with equal inputs, then all calls again in reverse order" % len(calls),
-                3 * len(calls), fails, time_s=time.time() - t0)
+    ctx.standin("C19.rt.frame_repeat_order", "%d public call scenarios over all ten modules (ndarray / DataFrame / Series arguments, writable float arrays, both altitude modes, seeded RNG): deep bitwise snapshot of every argument before / after, call twice with equal inputs, arguments overwritten in place and the same objects passed again, then all calls again in reverse order" % len(calls),
+                4 * len(calls), fails, time_s=time.time() - t0)
     t1 = time.time()
     bad = _forms(py)
     ctx.standin("C19.rt.forms", "scalar vs stacked vs list vs Series / DataFrame argument forms of 18 functions give the same values (bit-equal or 1e-14 relative)", 40,
